@@ -87,7 +87,7 @@ func cfg03(dev, mode string, maxLen int) string {
 
 // ExportTables asks TLC for the M2 tables.
 func ExportTables(ctx *core.Ctx) *Tables {
-	res, err := ctx.RunTLC(core.TLCOpts{Module: "C03Model", Cfg: cfg03("", "export", 1), Workers: 1,
+	res, err := c16.RunTLC(ctx, core.TLCOpts{Module: "C03Model", Cfg: cfg03("", "export", 1), Workers: 1,
 		Timeout: 5 * time.Minute, Label: "M2-export"})
 	if err != nil {
 		ctx.ToolError("M2 export: %v", err)
@@ -364,7 +364,12 @@ type replayCase struct {
 	Expected string                 `json:"expected"`
 }
 
+var reporter = c16.NewReporter()
+
 func report(ctx *core.Ctx, sig core.Sig, what string, m ModeRow, row *ChainRow, v *Value, o Obs, expected string) {
+	if !reporter.First(sig) {
+		return
+	}
 	rc := replayCase{Kind: "c03", Mode: m, Chain: row.Chain, Files: SiteFiles(m, row.Text), Template: "a.m", Value: v.Spec,
 		InputQ: strconv.Quote(clip(v.Text)), Class: row.Class, On: m.On, OutQ: strconv.Quote(clip(o.Out)), OffQ: strconv.Quote(clip(o.Off)), Expected: expected}
 	if v.IsStr && len(v.Text) <= 4096 {
@@ -433,6 +438,7 @@ func Run(ctx *core.Ctx) {
 		RandomTraces(ctx, real, t, ctx.Pick(4000, 50000))
 	}
 	wg.Wait()
+	ctx.Extra["cases_violating_per_signature"] = reporter.Counts()
 }
 
 // ---------------------------------------------------------------------------
@@ -447,7 +453,7 @@ func ModelCheck(ctx *core.Ctx) {
 	var wg sync.WaitGroup
 	ref := func(label, mode string, maxLen, workers int) {
 		defer wg.Done()
-		res, err := ctx.RunTLC(core.TLCOpts{Module: "C03Model", Cfg: cfg03("", mode, maxLen), Workers: workers, Timeout: 9 * time.Minute, Label: label})
+		res, err := c16.RunTLC(ctx, core.TLCOpts{Module: "C03Model", Cfg: cfg03("", mode, maxLen), Workers: workers, Timeout: 9 * time.Minute, Label: label})
 		if err != nil {
 			ctx.ToolError("M1 %s: %v", label, err)
 		} else if res.Violated != "" {
@@ -459,7 +465,7 @@ func ModelCheck(ctx *core.Ctx) {
 	go ref("M1-chains", "chains", ctx.Pick(2, 3), ctx.Pick(4, 10))
 	rejected := map[string]string{}
 	var mu sync.Mutex
-	for _, dev := range devs {
+	for _, dev := range c16.QuickSubset(ctx, devs, 3) {
 		wg.Add(1)
 		go func(dev string) {
 			defer wg.Done()
@@ -467,7 +473,7 @@ func ModelCheck(ctx *core.Ctx) {
 			if dev == "callee_inherits" || dev == "ns_attr_ignored" {
 				mode = "sites"
 			}
-			res, err := ctx.RunTLC(core.TLCOpts{Module: "C03Model", Cfg: cfg03(dev, mode, 1), Workers: 1, Timeout: 5 * time.Minute, Label: "M1-dev-" + dev})
+			res, err := c16.RunTLC(ctx, core.TLCOpts{Module: "C03Model", Cfg: cfg03(dev, mode, 1), Workers: 1, Timeout: 5 * time.Minute, Label: "M1-dev-" + dev})
 			if err != nil {
 				ctx.ToolError("M1 deviation %s: %v", dev, err)
 				return
@@ -517,29 +523,36 @@ func isChainStructure(m ModeRow) bool {
 func Grid(ctx *core.Ctx, real *c16.Real, t *Tables, vals []Value, off, y [][]string, errs [][]bool) {
 	type job struct {
 		mi, ci int
-		sample bool // mode grid: a seeded sample of the values (quick tier)
+		sample int // 0: every value; 1: the mode-grid sample; 2: the sample for chains of two
 	}
 	var jobs []job
 	for mi, m := range t.Modes {
 		for ci := range t.Chains {
-			if isSiteChain(t.Chains[ci].Text) {
-				jobs = append(jobs, job{mi, ci, true})
-			} else if isChainStructure(m) {
-				jobs = append(jobs, job{mi, ci, false})
+			if isChainStructure(m) {
+				k := 0
+				if len(t.Chains[ci].Chain) == 2 {
+					k = 2
+				}
+				jobs = append(jobs, job{mi, ci, k})
+			} else if isSiteChain(t.Chains[ci].Text) {
+				jobs = append(jobs, job{mi, ci, 1})
 			}
 		}
 	}
-	// the sample: all exported values and every value with a special up to 8 bytes, the rest by seed
+	// the samples: all exported values, the specials alone and in pairs, the rest by seed
+	// (quick: 1/8 of the rest; thorough: 1/6 for the mode grid, 1/3 for chains of two)
 	r := rand.New(rand.NewSource(ctx.Seed))
-	inSample := make([]bool, len(vals))
+	inSample := [3][]bool{nil, make([]bool, len(vals)), make([]bool, len(vals))}
 	for vi, v := range vals {
-		inSample[vi] = ctx.Thorough() || v.ExpIdx >= 0 || (len(v.Text) <= 3 && hasSpecial(v.Text)) || r.Intn(6) == 0
+		must := v.ExpIdx >= 0 || (len(v.Text) <= 2 && hasSpecial(v.Text))
+		inSample[1][vi] = must || r.Intn(ctx.Pick(8, 6)) == 0
+		inSample[2][vi] = must || r.Intn(ctx.Pick(8, 3)) == 0
 	}
 	ch := make(chan job, 256)
 	var wg sync.WaitGroup
 	var n, nexact, nerr int64
 	var mu sync.Mutex
-	for w := 0; w < runtime.NumCPU(); w++ {
+	for w := 0; w < (runtime.NumCPU()*3)/4; w++ {
 		wg.Add(1)
 		go func() {
 			defer wg.Done()
@@ -554,7 +567,7 @@ func Grid(ctx *core.Ctx, real *c16.Real, t *Tables, vals []Value, off, y [][]str
 					continue
 				}
 				for vi := range vals {
-					if j.sample && !inSample[vi] {
+					if j.sample != 0 && !inSample[j.sample][vi] {
 						continue
 					}
 					v := &vals[vi]
@@ -659,9 +672,9 @@ func RandomTraces(ctx *core.Ctx, real *c16.Real, t *Tables, n int) {
 			if r.Intn(4) == 0 {
 				sv := core.RandValue(r, 2)
 				v = Value{X: core.ToData(sv), Spec: sv, IsStr: sv["t"] == "str", ExpIdx: -1}
-				if v.IsStr {
-					v.Text = sv["v"].(string)
-				}
+				// the text of a non-string as the real code prints it (whether that text is
+				// right is not C03's question; TLC judges the same line with the spec's ToText)
+				v.Text, _ = real.RenderOff("", v.X)
 			} else {
 				s := c16.RandString(r, true)
 				v = Value{X: data.String(s), Spec: core.VStr(s), Text: s, IsStr: true, ExpIdx: -1}
@@ -678,13 +691,11 @@ func RandomTraces(ctx *core.Ctx, real *c16.Real, t *Tables, n int) {
 				o.Y, _ = real.RenderOff(c16.ChainText(row.Chain[:row.K-1]), v.X)
 			}
 			ctx.AddEvals(1)
-			if v.IsStr {
-				if hasSpecial(v.Text) {
-					ctx.Distinct("r|" + m.String() + "|" + row.Text + "|" + v.Text)
-				}
-				if sig, what := Judge(m, row, &v, o); what != "" {
-					report(ctx, sig, what, m, row, &v, o, "C03 predicate")
-				}
+			if hasSpecial(v.Text) {
+				ctx.Distinct("r|" + m.String() + "|" + row.Text + "|" + v.Text)
+			}
+			if sig, what := Judge(m, row, &v, o); what != "" {
+				report(ctx, sig, what, m, row, &v, o, "C03 predicate")
 			}
 			if !c16.TLCSafe(v.Text) || !c16.TLCSafe(o.Out) || !c16.TLCSafe(o.Off) || !c16.TLCSafe(o.Y) {
 				continue
@@ -708,7 +719,7 @@ func RandomTraces(ctx *core.Ctx, real *c16.Real, t *Tables, n int) {
 			buf.WriteByte('\n')
 		}
 		cfg := "CONSTANT DirDev = {}\nINIT Init\nNEXT Next\nINVARIANT Report\nPOSTCONDITION TraceAccepted\nCHECK_DEADLOCK FALSE\n"
-		res, err := ctx.RunTLC(core.TLCOpts{Module: "C03Trace", Cfg: cfg, Files: map[string][]byte{"c03_trace.ndjson": buf.Bytes()},
+		res, err := c16.RunTLC(ctx, core.TLCOpts{Module: "C03Trace", Cfg: cfg, Files: map[string][]byte{"c03_trace.ndjson": buf.Bytes()},
 			Workers: 1, Timeout: 9 * time.Minute, Label: "M3-trace-validation"})
 		if err != nil {
 			ctx.ToolError("M3: %v", err)
@@ -724,22 +735,14 @@ func RandomTraces(ctx *core.Ctx, real *c16.Real, t *Tables, n int) {
 				i, _ := strconv.Atoi(mm[1])
 				me := metas[i-1]
 				sig, what := Judge(me.m, me.row, &me.v, me.o)
-				if what == "" || !me.v.IsStr {
-					// TLC alone rejects (a non-string value, whose text only the spec knows)
+				if what == "" {
+					// only the spec's decoders / the spec's text of the value reject the line
 					kind := "string"
 					if !me.v.IsStr {
 						kind = "non-string"
 					}
-					sig = core.Sig{Family: "autoescape", Feature: "site=" + me.m.Site + "," + mm[2] + "," + kind}
-					if me.m.On && me.row.Class == "HTML" {
-						h := me.row.Chain[me.row.K-1]
-						sig = core.Sig{Family: "print-directive", Feature: "directive=" + h.Name + "," + mm[2] + "," + kind}
-					}
-					what = "rejected by TLC against C03Sites.TraceVerdict: " + mm[2]
-					if me.v.Text == "" && !me.v.IsStr {
-						b, _ := json.Marshal(me.v.Spec)
-						me.v.Text = string(b)
-					}
+					sig = core.Sig{Family: "tlc-only", Feature: "site=" + me.m.Site + ",class=" + me.row.Class + "," + mm[2] + "," + kind}
+					what = "rejected by TLC against C03Sites.TraceVerdict (the Go decoders accept it): " + mm[2]
 				}
 				report(ctx, sig, what, me.m, me.row, &me.v, me.o, "trace validation")
 			} else if mm := reDone.FindStringSubmatch(tu); mm != nil {
